@@ -12,19 +12,19 @@ from common import Infra, run_tlc, Scratch, log
 
 # which P predicates decide which property (PipeProps.Verdicts)
 PREDS = {
-    "C05": ["PipePrefix", "PipeComplete", "PipeSettle", "PipeGen", "Prefix", "SeqExact", "FoldRes", "Complete", "TakeBound", "CallsPrefix", "CallsComplete", "Settle1"],
+    "C05": ["NoEarlyClose", "NoStall", "PipePrefix", "PipeComplete", "PipeSettle", "PipeGen", "Prefix", "SeqExact", "FoldRes", "Complete", "TakeBound", "CallsPrefix", "CallsComplete", "Settle1"],
     "C06": ["PipePrefix", "NoPanic", "Prefix", "FoldRes", "Settle1", "Settle2", "LiftCloses", "GenExact", "GenStops", "GenNoEarlyClose", "GenSettle", "JoinPerInput", "JoinNothingInvented"],
-    "C07": ["Prefix", "Complete", "CallsPrefix", "CallsComplete", "Settle1", "LiftCloses", "NoPanic", "GenExact", "GenSettle"],
+    "C07": ["NoEarlyClose", "NoStall", "Prefix", "Complete", "CallsPrefix", "CallsComplete", "Settle1", "LiftCloses", "NoPanic", "GenExact", "GenSettle"],
     "C08": ["NeverBlocksSender", "Prefix", "LosslessAfterCancel", "Complete", "Settle1", "NewSettle", "NoPanic"],
-    "C09": ["Prefix", "Complete", "CallsPrefix", "CallsComplete", "NoPanic", "Settle1", "Settle2"],
+    "C09": ["NoEarlyClose", "NoStall", "Prefix", "Complete", "CallsPrefix", "CallsComplete", "NoPanic", "Settle1", "Settle2"],
     "C10": ["FoldRes", "Complete", "CallsComplete", "Settle1", "NoPanic"],
     "C11": ["GenExact", "GenStops", "GenNoEarlyClose", "EmitPaced", "EmitKeepUp", "Settle2", "GenSettle", "NoPanic"],
     "C12": ["JoinPerInput", "JoinNothingInvented", "JoinComplete", "Settle1", "Settle2", "NoPanic"],
-    "C13": ["Prefix", "Complete", "ThrottleWindow", "ThrottlePaced", "Settle1", "Settle2", "NoPanic"],
+    "C13": ["NoEarlyClose", "Prefix", "Complete", "ThrottleWindow", "ThrottlePaced", "Settle1", "Settle2", "NoPanic"],
 }
 STAGE_INV = {"Prefix": "PrefixInv", "FoldRes": "FoldResInv", "Complete": "CompleteInv", "TakeBound": "TakeBoundInv",
              "CallsPrefix": "CallsPrefixInv", "CallsComplete": "CallsCompleteInv", "NoPanic": "NoPanicInv",
-             "Settle1": "Settle1Inv", "Settle2": "Settle2Inv", "LiftCloses": "LiftClosesInv"}
+             "Settle1": "Settle1Inv", "Settle2": "Settle2Inv", "LiftCloses": "LiftClosesInv", "NoEarlyClose": "NoEarlyCloseInv", "NoStall": "NoStallInv"}
 SEQ_KINDS = ["Map", "FMap", "Filter", "ForEach", "Void", "Fold", "Partition", "Take", "TakeWhile"]
 
 
@@ -205,7 +205,7 @@ MODEL_INV = {
     "Stage": STAGE_INV,
     "Gen": {"GenExact": "GenExactInv", "EmitPaced": "EmitPacedInv", "EmitKeepUp": "EmitKeepUpInv", "GenSettle": "GenSettleInv", "Settle2": "Settle2Inv", "LiftCloses": "LiftClosesInv", "GenNoEarlyClose": "GenNoEarlyCloseInv"},
     "Throttle": {"Prefix": "PrefixInv", "Complete": "CompleteInv", "ThrottleWindow": "ThrottleWindowInv", "ThrottlePaced": "ThrottlePacedInv",
-                 "Settle1": "Settle1Inv", "Settle2": "Settle2Inv"},
+                 "Settle1": "Settle1Inv", "Settle2": "Settle2Inv", "NoEarlyClose": "NoEarlyCloseInv"},
     "JoinStage": {"JoinPerInput": "JoinPerInputInv", "JoinNothingInvented": "JoinNothingInventedInv", "JoinComplete": "JoinCompleteInv",
                   "Settle1": "Settle1Inv", "Settle2": "Settle2Inv"},
     "Unbound": {"Prefix": "PrefixInv", "NeverBlocksSender": "NeverBlocksSenderInv", "LosslessAfterCancel": "LosslessAfterCancelInv",
@@ -315,6 +315,7 @@ def check(run, replay=None):
     rng = random.Random(run.seed * 7919 + int(pid[1:]))
     run.mc_violated = None
     pipe_run.EXERCISED.clear()
+    del pipe_run.HUNG[:]
     binp = pipe_run.build()
     with Scratch() as d:
         if replay:
@@ -435,6 +436,11 @@ def check(run, replay=None):
         for t in traces[:: max(1, len(traces) // 4)][:4]:
             run.sample({"cfg": {k: v for k, v in t["cfg"].items() if v not in (0, [], False, "")}, "origin": t.get("origin"),
                         "commands": [cmd_str(w["cmd"]) for w in t["wins"][1:]][:30]})
+        if pipe_run.HUNG:
+            run.notes["hung_schedules"] = len(pipe_run.HUNG)
+            log("phase: %d schedule(s) never came to rest (library goroutine spinning?): e.g. %s" % (len(pipe_run.HUNG), json.dumps(pipe_run.HUNG[0]["cfg"])[:300]))
+            if not run.violations and not run.known_hits:
+                raise Infra("%d schedule(s) hung (the library never became quiescent) and no execution violated a predicate; first: %s" % (len(pipe_run.HUNG), json.dumps(pipe_run.HUNG[0])[:600]))
         if run.mc_violated and not run.violations and not run.known_hits:
             raise Infra("model error: the I model violates %s but no execution of the real code does" % run.mc_violated)
         run.exhaustive = True
